@@ -43,7 +43,10 @@ AddSnapshot(p, s) ==
   /\ bud' = [bud EXCEPT !.churn = @ + 1]
 
 RemovePeer(p) ==
-  /\ EnvOk /\ bud.churn < MaxChurn /\ sy.pc # "end" /\ PeerSnaps(pool, p) # {}
+  \* a peer that advertises something, or a rejected peer (disconnects of peers the pool does
+  \* not know at all change nothing)
+  /\ EnvOk /\ bud.churn < MaxChurn /\ sy.pc # "end" /\ (PeerSnaps(pool, p) # {} \/ p \in gh.rej.peer)
+  /\ XRemovePeer(Cur, p) # Cur \/ p \in gh.rej.peer
   /\ Install(XRemovePeer(Cur, p))
   /\ bud' = [bud EXCEPT !.churn = @ + 1]
   /\ act' = [name |-> "RemovePeer", p |-> p]
